@@ -43,5 +43,7 @@ def replay(path):
     for mod in (gradual, scoregen, decoder, convert, builders, modsrep, attrs, strains, session, corners):
         if kind in mod.REPLAY_KINDS:
             return mod.replay(prop, obj)
-    common.log("no replay handler for kind %r" % kind)
+    # kinds without a dedicated re-execution (TLC / Apalache counterexamples, helper / converter records): show the record
+    common.log(json.dumps(obj["replay"], indent=1)[:6000])
+    common.log("re-run ./check %s to re-evaluate on the current tree" % prop)
     return 2
